@@ -50,6 +50,10 @@ def pt_fingerprint(p):
                           for k, v in p.items() if k != 'dataset'))
 
 
+def snapshot_ids(ds):
+    return [id(p) for p in list.__iter__(ds)]
+
+
 def snapshot(ds):
     return ([id(p) for p in ds], [pt_fingerprint(p) for p in ds], attrs_tokens(ds.__dict__))
 
@@ -394,6 +398,15 @@ def run(rep):
             x, y = a, a
         else:
             x, y = a, rng.choice(dsets)
+        # an empty operand on either side (seeded change C17-11: `empty + b` returned b itself): the empty slice of another
+        # dataset (its attributes), or a bare DataSet([]) (no attributes) — the start of an accumulation loop
+        re_ = rng.random()
+        if re_ < 0.2:
+            try:
+                e = rng.choice(dsets)[0:0] if rng.random() < 0.5 else type(a)([])
+                x, y = (e, y) if rng.random() < 0.5 else (x, e)
+            except Exception:
+                pass
         bx, by = snapshot(x), snapshot(y)
         line = 'c17.add %s | %s' % (' '.join(bx[2]), ' '.join(by[2]))
         spec_pts = bx[0] + by[0]
@@ -414,11 +427,27 @@ def run(rep):
         except Exception as e:
             impl, pts_ok = 'EXC:' + type(e).__name__, True
         ax, ay = snapshot(x), snapshot(y)
+        # list semantics: x + y is a NEW list, so growing it or assigning an attribute on it never reaches x or y
+        fresh_ok = True
+        try:
+            res2 = x + y
+            probe = object()
+            list.append(res2, probe)
+            res2.verif_probe_attr = 1
+            fresh_ok = (snapshot_ids(x) == bx[0] and snapshot_ids(y) == by[0]
+                        and 'verif_probe_attr' not in x.__dict__ and 'verif_probe_attr' not in y.__dict__)
+            for o in (x, y):                     # put an aliased source back as it was
+                if len(o) and o[-1] is probe:
+                    list.pop(o)
+                o.__dict__.pop('verif_probe_attr', None)
+        except Exception:
+            pass
         cases.append(('add', dict(a=getattr(x, 'id', None), b=getattr(y, 'id', None),
                                   na=len(x), nb=len(y), same_attrs=(bx[2] == by[2])),
                       line, impl, spec_add,
-                      dict(pts_ok=pts_ok, source_ok=(bx == ax and by == ay))))
+                      dict(pts_ok=pts_ok, source_ok=(bx == ax and by == ay), fresh_ok=fresh_ok)))
         rep.hist('add.kind', 'same-attrs' if bx[2] == by[2] else 'different-attrs')
+        rep.hist('add.empty-operand', 'left' if not len(x) else ('right' if not len(y) else 'none'))
 
     # ---------------- copies ----------------
     for i in range(ncopy):
@@ -513,12 +542,14 @@ def run(rep):
             problems.append('points')
         if side.get('source_ok') is False:
             problems.append('source-mutated')
+        if side.get('fresh_ok') is False:
+            problems.append('result-aliases-source')
         if not problems:
             continue
         # which side is wrong?  spec = python list semantics computed by the harness.  A concrete failing input is claimed
         # only when the SPEC (not merely the model) says the code is wrong, or a side condition evaluated on the real
         # objects (points of x + y, attributes kept, source untouched) fails; model != code alone is no failing input
-        code_wrong = (spec is not None and impl != spec) or any(side.get(k_) is False for k_ in ('attrs_ok', 'pts_ok', 'source_ok'))
+        code_wrong = (spec is not None and impl != spec) or any(side.get(k_) is False for k_ in ('attrs_ok', 'pts_ok', 'source_ok', 'fresh_ok'))
         if impl.startswith('EXC:'):
             cls = impl
         elif kind == 'select' and 'result' in problems:
